@@ -98,6 +98,7 @@ type Path struct {
 	decLabels  map[string]int
 	race       *raceState
 	protoCalls int
+	envExhausted bool
 	protoProfile struct{ bytesLen, repLen, strLen int }
 }
 
